@@ -417,11 +417,11 @@ def _mentions(t, sub):
 
 def mentions(t, pred):
     """does any sub-term satisfy pred"""
-    if pred(t):
+    if not isinstance(t, tuple) or not t:
+        return False
+    if isinstance(t[0], str) and pred(t):
         return True
-    if isinstance(t, tuple):
-        return any(mentions(x, pred) for x in t if isinstance(x, tuple))
-    return False
+    return any(mentions(x, pred) for x in t if isinstance(x, tuple))
 
 
 def walk(body, **kw):
